@@ -286,9 +286,55 @@ func readToEOF(p *Prog, fn *ssa.Function, readCall string) (out []gFinding) {
 						}
 					}
 				}
-				// or with an error only
+				// or with an error only; an io.EOF test just outside the loop (`if err != nil { if err ==
+				// io.EOF { break }; return err }`) is taken into account by cutting its EOF side
 				if onlyErrorReturns(p, fn, s, L) {
 					continue
+				}
+				eofEdges := map[edge]bool{}
+				for _, ob := range fn.Blocks {
+					oi, ok := ob.Instrs[len(ob.Instrs)-1].(*ssa.If)
+					if !ok {
+						continue
+					}
+					obo, ok := oi.Cond.(*ssa.BinOp)
+					if !ok || (obo.Op != token.EQL && obo.Op != token.NEQ) {
+						continue
+					}
+					isEOF := func(v ssa.Value) bool {
+						u, ok := stripConv(v).(*ssa.UnOp)
+						if !ok || u.Op != token.MUL {
+							return false
+						}
+						g, ok := u.X.(*ssa.Global)
+						return ok && g.Pkg != nil && g.Pkg.Pkg.Path() == "io" && (g.Name() == "EOF" || g.Name() == "ErrUnexpectedEOF")
+					}
+					if isEOF(obo.X) || isEOF(obo.Y) {
+						if obo.Op == token.EQL {
+							eofEdges[edge{ob.Index, 0}] = true
+						} else {
+							eofEdges[edge{ob.Index, 1}] = true
+						}
+					}
+				}
+				if len(eofEdges) > 0 && !L[s.Index] {
+					seen := reach(fn, []*ssa.BasicBlock{s}, eofEdges, nil)
+					bad := false
+					succ := map[*ssa.Return]bool{}
+					for _, r := range p.successReturns(fn) {
+						succ[r] = true
+					}
+					for bi2 := range seen {
+						if L[bi2] {
+							bad = true
+						}
+						if r, ok := fn.Blocks[bi2].Instrs[len(fn.Blocks[bi2].Instrs)-1].(*ssa.Return); ok && succ[r] {
+							bad = true
+						}
+					}
+					if !bad {
+						continue
+					}
 				}
 				okAll = false
 				detail = fmt.Sprintf("the read loop can be left at %s towards the success return without io.EOF having been seen: the tail of the member (and with it part of the raw bytes the digest is taken over, and the CRC check at EOF) is skipped", p.Pos(lastPos(b)))
